@@ -430,6 +430,8 @@ int run_cases(F handler) {
       id = cs[0].a;
       std::string out = handler(cs);
       std::cout << "(" << id << " ok " << out << ")" << std::endl;
+    } catch (std::domain_error& e) {      // driver-detected impurity (C12)
+      std::cout << "(" << id << " impure (" << e.what() << "))" << std::endl;
     } catch (std::invalid_argument& e) {
       if (getenv("DRV_VERBOSE")) std::cerr << id << ": " << e.what() << std::endl;
       std::cout << "(" << id << " err value)" << std::endl;
